@@ -53,3 +53,66 @@ contract(ASS + "._group_constraints_with_same_prop_and_obj", params={CSL: List(S
            1: {"invariant": INNER}},
     props=["C02", "C12", "C09", "C03"],
     note="one statement per (property, kind) key of the candidates, each a member of the input: nothing lost, duplicated or invented (outer + inner loop invariants, exact visited set)")
+
+# =====================================================================================================================================
+# stage 2: the non-literal kinds (IRI / BNode / shape references) of one property collapse to ONE constraint; literals and the
+# instantiation property pass through untouched
+# =====================================================================================================================================
+from contracts.shexing import MC_INV, SerFactory, NSD
+G2 = "mergeable_constraints"
+def MCINV_OF(g): return [x.replace("self.", g + ".") for x in MC_INV]
+def NODEK(e): return "(some(%s._st_type) == 'IRI' or some(%s._st_type) == 'BNode' or some(%s._st_type).startswith('%%'))" % (e, e, e)
+L = "all_original_statements"
+T0 = "target_index_original_statements"
+LEAD = "at(%s, %s - 1)" % (L, T0)
+def L_OK(lst):
+    return ["forall(Int, lambda j: implies(%s, has_class(at(%s, j), 'Statement') and at(%s, j)._serializer_object is not None and at(%s, j)._is_inverse == at(%s, 0)._is_inverse))"
+            % (BOUND("j", lst), lst, lst, lst, lst),
+            "forall(Int, Int, lambda a, b: implies(0 <= a and a < b and b < len(%s), at(%s, a) != at(%s, b) and not %s))" % (lst, lst, lst, KEY("at(%s, a)" % lst, "at(%s, b)" % lst))]
+def SAMEPROP(e, lead): return "(%s._st_property == %s._st_property)" % (e, lead)
+GC2 = G2 + "._constraints"
+MEMBERS2 = ("forall(Int, lambda q: implies(0 <= q and q < len(%s), exists(Int, lambda m: %s - 1 <= m and m < {upto} and at(%s, q) == at(%s, m) and %s and %s)))"
+            % (GC2, T0, GC2, L, NODEK("at(%s, m)" % L), SAMEPROP("at(%s, m)" % L, LEAD)))
+COMPLETE2 = ("forall(Int, lambda m: implies(%s <= m and m < {upto} and %s and %s, at(%s, m) in already_visited and exists(Int, lambda q: 0 <= q and q < len(%s) and at(%s, q) == at(%s, m))))"
+             % (T0, NODEK("at(%s, m)" % L), SAMEPROP("at(%s, m)" % L, LEAD), L, GC2, GC2, L))
+VISITED2 = ("forall(Statement, lambda x: (x in already_visited) == ((x in old(already_visited)) or exists(Int, lambda m: %s <= m and m < {upto} and at(%s, m) == x and %s and %s)))"
+            % (T0, L, NODEK("at(%s, m)" % L), SAMEPROP("at(%s, m)" % L, LEAD)))
+SAMEKEY2 = "forall(Int, lambda q: implies(0 <= q and q < len(%s), at(%s, q)._st_property == at(%s, 0)._st_property and at(%s, q)._is_inverse == at(%s, 0)._is_inverse))" % ((GC2,) * 5)
+FACT2 = ["%s._statement_serializer_factory == old(%s._statement_serializer_factory)" % (G2, G2), "%s._namespaces_dict == old(%s._namespaces_dict)" % (G2, G2)]
+FIND_PARAMS = {G2: MCT, "already_visited": Set(Statement), L: List(Statement), T0: Int}
+FIND_PRE = (["1 <= %s and %s <= len(%s)" % (T0, T0, L)] + L_OK(L) + MCINV_OF(G2) +
+            ["len(%s) == 1" % GC2, "at(%s, 0) == %s" % (GC2, LEAD), NODEK(LEAD)])
+FIND_POST = (MCINV_OF(G2) + ["len(%s) >= 1" % GC2, "at(%s, 0) == %s" % (GC2, LEAD), MEMBERS2.format(upto="len(%s)" % L),
+                             COMPLETE2.format(upto="len(%s)" % L), VISITED2.format(upto="len(%s)" % L), SAMEKEY2] + FACT2)
+contract(ASS + "._find_all_candidates_to_merge_swapped_constraints_at_node_level", params=FIND_PARAMS, mutates=["already_visited"],
+    requires=FIND_PRE, ensures=FIND_POST, raises=[],
+    modifies=["MC._constraints[%s]" % G2, "MC._bnode_constraint[%s]" % G2, "MC._iri_constraint[%s]" % G2, "MC._shape_constraints[%s]" % G2],
+    loops={0: {"invariant": MCINV_OF(G2) + ["len(%s) >= 1" % GC2, "at(%s, 0) == %s" % (GC2, LEAD), MEMBERS2.format(upto="%s + _i0" % T0),
+                                            COMPLETE2.format(upto="%s + _i0" % T0), VISITED2.format(upto="%s + _i0" % T0), SAMEKEY2] + FACT2}},
+    props=["C02", "C12", "C03"],
+    note="the group of one property: exactly the later candidates with that property and a non-literal kind join it (and are marked visited); the representation invariant of the group is kept")
+
+GM = "group_to_merge"
+GMC = GM + "._constraints"
+MERGE_PRE = (MCINV_OF(GM) + ["len(%s) >= 1" % GMC, "%s._statement_serializer_factory is not None" % GM, "%s._namespaces_dict is not None" % GM,
+                             "forall(Int, lambda q: implies(0 <= q and q < len(%s), at(%s, q)._st_property == at(%s, 0)._st_property and at(%s, q)._is_inverse == at(%s, 0)._is_inverse))" % ((GMC,) * 5)])
+contract(ASS + "._merge_swapped_constraints_at_node_level", params={GM: MCT}, returns=Statement,
+    requires=MERGE_PRE,
+    ensures=["result._st_property == old(at(%s, 0)._st_property)" % GMC,
+             "(exists(Int, lambda q: 0 <= q and q < len(old(%s)) and at(old(%s), q) == result) or fresh_obj(result))" % (GMC, GMC)],
+    raises=[], modifies=["MC._dominant_constraint[%s]" % GM, "MC._constraints[%s]" % GM, "MC._shape_constraints[%s]" % GM, "MC._disable_or[%s]" % GM,
+                         "MC._redundant_or_enabled[%s]" % GM, "alloc", "Statement._comments"],
+    props=["C02", "C12", "C03"], note="one constraint for the property: a member of the group or a statement created by the merge")
+
+FM_PARAMS = {G2: MCT, "already_visited": Set(Statement), L: List(Statement), T0: Int}
+RES_FROM_GROUP = ("(exists(Int, lambda m: %s - 1 <= m and m < len(%s) and at(%s, m) == result and %s and %s) or fresh_obj(result))"
+                  % (T0, L, L, NODEK("at(%s, m)" % L), SAMEPROP("at(%s, m)" % L, LEAD)))
+VISITED_FM = ("forall(Statement, lambda x: (x in already_visited) == ((x in old(already_visited)) or exists(Int, lambda m: %s <= m and m < len(%s) and at(%s, m) == x and %s and %s)))"
+              % (T0, L, L, NODEK("at(%s, m)" % L), SAMEPROP("at(%s, m)" % L, LEAD)))
+contract(ASS + "._find_and_merge_potentially_swapped_constraints", params=FM_PARAMS, mutates=["already_visited"], returns=Statement,
+    requires=FIND_PRE + ["%s._statement_serializer_factory is not None" % G2, "%s._namespaces_dict is not None" % G2],
+    ensures=["result._st_property == old(%s._st_property)" % LEAD, RES_FROM_GROUP, VISITED_FM],
+    raises=[], modifies=["MC._constraints[%s]" % G2, "MC._bnode_constraint[%s]" % G2, "MC._iri_constraint[%s]" % G2, "MC._shape_constraints[%s]" % G2,
+                         "MC._dominant_constraint[%s]" % G2, "MC._disable_or[%s]" % G2, "MC._redundant_or_enabled[%s]" % G2, "alloc", "Statement._comments"],
+    props=["C02", "C12", "C03"], note="search + merge: the constraint returned stands for the property of the leading candidate and is a candidate of that property or a new statement")
+
